@@ -154,6 +154,9 @@ class Machine(RuleBasedStateMachine):
             return res, delta
         allowed = set() if res.code == 2 else allowed_fn(before)
         extra = {p for p in delta if p not in allowed and not (after.get(p, ("",))[0] == "d" and before.get(p) is None and any(a.startswith(p + "/") for a in allowed))}
+        if args and "download" in [str(a) for a in args]:
+            # a new (empty) directory below LICENSES/ is not a file; the statement speaks of files
+            extra = {p for p in extra if not (p.startswith("LICENSES/") and after.get(p, ("",))[0] == "d" and before.get(p) is None)}
         if extra:
             detail = {p: (before.get(p), after.get(p)) for p in sorted(extra)[:4]}
             raise Violation(case, f"`reuse {' '.join(map(str, args))}` (exit {res.code}) touched {sorted(extra)} — allowed for this command: {sorted(allowed)[:12]}; before/after {detail}")
@@ -240,7 +243,8 @@ class Machine(RuleBasedStateMachine):
 
     # ---- download
     @precondition(lambda self: self.base is not None and len(self.history) <= 7)
-    @rule(ids=st.lists(st.sampled_from(["MIT", "ISC", "LicenseRef-verif", "GPL-2.0+", "nope"]), min_size=1, max_size=3, unique=True), all_=st.integers(0, 3),
+    @rule(ids=st.lists(st.sampled_from(["MIT", "ISC", "LicenseRef-verif", "GPL-2.0+", "nope", "../LicenseRef-up", "../../outside-sentinel/LicenseRef-out", "src/LicenseRef-sub"]),
+                       min_size=1, max_size=3, unique=True), all_=st.integers(0, 3),
           out=st.sampled_from([None, None, None, "downloaded.txt", "existing"]), plan=st.sampled_from(["ok", "ok", "404", "reset"]),
           source=st.sampled_from([None, None, "file", "dir"]))
     def download(self, ids, all_, out, plan, source):
@@ -269,6 +273,8 @@ class Machine(RuleBasedStateMachine):
             cands = ids if ids else ["MIT", "ISC", "GPL-2.0", "0BSD", "CC0-1.0", "Apache-2.0", "Zlib", "X11", "curl", "BSL-1.0", "GPL-3.0-or-later", "LicenseRef-custom", "LicenseRef-unused",
                                      "LicenseRef-other", "LicenseRef-verif"]
             for i in cands:
+                if "/" in i:
+                    continue  # not an identifier: nothing may be created for it
                 p = f"LICENSES/{i[:-1] if i.endswith('+') else i}.txt"
                 if p not in before:
                     okset.add(p)
